@@ -74,7 +74,8 @@ CHECKS.update({
         "complete grid of quantity x cell x gdim x facet with random vertices; oracle = geometry computed directly from the vertices",
         "Every geometric quantity handled by the lowering on every admissible (cell, gdim, facet, ridge, preserve set) "
         "grid point, each with random non-degenerate vertex sets; the lowered expression evaluated with Jacobian / "
-        "reference-cell terminals must equal the quantity computed from vertex coordinates.",
+        "reference-cell terminals must equal the quantity computed from vertex coordinates; also all ordered pairs q1/q2 "
+        "of the ten scalar quantities lowered in one expression.",
         "Trusts vf/refcell.py (Gram determinants, circumcentre solve, numpy pinv) and the FEniCS reference-cell "
         "numbering; CellNormal by validity predicate.",
         "4/C07",
@@ -146,12 +147,12 @@ CHECKS.update({
 CHECKS.update({
     "C14": (
         "generated multilinear-by-construction integrands and single-edit broken variants; oracle = numerical (anti)linearity of the integrand in each argument, computed by the interpreter with explicit argument coefficients",
-        "Hypothesis-generated forms with 1-2 arguments (real and complex mode): integrands multilinear by construction and "
+        "Hypothesis-generated forms with 1-3 arguments (real and complex mode): integrands multilinear by construction and "
         "variants broken by one edit (affine addend, non-zero argument-free list-tensor component, squares, nonlinear "
         "functions, argument-dependent conditions/denominators, mismatching branches or argument sets, missing/spurious "
-        "conjugation). Whenever compute_form_data's arity check accepts, F(alpha u + beta u') = alpha F(u) + beta F(u') "
-        "(conjugated for the test function in complex mode) must hold numerically for every argument; programs that are "
-        "multilinear by construction must be accepted.",
+        "conjugation, also of the third argument or of one term of a sum). Whenever compute_form_data's arity check accepts, F(alpha u + beta u') = alpha F(u) + beta F(u') "
+        "(conjugated for the test function in complex mode) must hold numerically for every argument; rejections of "
+        "programs that are multilinear by construction are counted (a floor on accepted cases guards against vacuity).",
         "Trusts the interpreter; only ArityMismatch counts as a rejection.",
         "4/C14",
     ),
@@ -159,10 +160,12 @@ CHECKS.update({
         "generated interior-facet integrands with restrictions at arbitrary depth; oracle = own classification of the input DAG (must raise / must accept) + two-sided interpreter value before vs after + structural predicate on the result",
         "Hypothesis-generated interior-facet integrands over H1/DG/Piola/Real coefficients, arguments, constants, x, n, "
         "cell and facet geometry, gradients, variables, with restrictions wrapped at the root or drawn at arbitrary depth "
-        "(incl. invalid programs); with default restrictions checked and with pure propagation. Nested restrictions and "
+        "(incl. invalid programs); with default restrictions checked and with pure propagation, called directly or through "
+        "compute_form_data with the measures dS, dS_h, dS_v. Nested restrictions and "
         "unrestricted side-dependent terminals must raise; otherwise the value on a pair of cells sharing a facet (H1 "
         "traces equal, n- = -n+) must be unchanged and every side-dependent terminal must be wrapped exactly once.",
-        "Trusts the two-sided environment of DESIGN 2.3 and the harness' list of side-dependent terminal kinds.",
+        "Trusts the two-sided environment of DESIGN 2.3 and the harness' list of side-dependent terminal kinds; known "
+        "finding F26 (lowered cell geometry takes the default side) is identified by the check and diverted.",
         "4/C17",
     ),
 })
@@ -290,9 +293,10 @@ CHECKS.update({
     "C13": (
         "generated pools with near-duplicates and generated sequences of comparisons / container operations; oracle = equivalence axioms, implications of == (hash, repr, own structural key, signature), snapshot invariants after every operation, pickle and eval(repr) round trips",
         "Hypothesis-generated pools of expressions and forms containing rebuilt copies, one-edit variants and terminal twins "
-        "that differ in one datum (count, shape, function space, number, part, literal type, index objects), exercised by "
+        "that differ in one datum (count, shape, function space, its label, number, part, literal type or last digits "
+        "under a reduced print precision, index objects, variable label), exercised by "
         "generated sequences of ==, !=, set/dict membership, sorted_expr, hash, str, pickle and eval(repr): == must be an "
-        "equivalence that implies equal hash, repr, structure and signature; no operation may change repr, hash or "
+        "equivalence that implies equal hash, repr, structure, signature and pairwise equal terminals; no operation may change repr, hash or "
         "structure of any member; round trips must return equal objects.",
         "Own structural key defines 'unchanged'; BaseFormOperators not generated.",
         "4/C13",
@@ -304,9 +308,11 @@ CHECKS.update({
         "generated (form, one-edit variant) pairs; oracle = signatures must differ whenever the pair is provably different (edit in data a compiler reads verbatim, or integrand values differ numerically under canonical terminal numbering), and must agree for the same recipe rebuilt with shifted counters",
         "Hypothesis-generated forms with subdomain ids and rich metadata (floats, nested containers, numpy arrays up to 4000 "
         "entries) and one edit per pair (literal, fixed index, operator, operand order, element family/degree/mapping, cell, "
-        "integral type, subdomain id, metadata value incl. single array entries and last digits): signatures must differ for "
-        "every provably different pair; the same recipe rebuilt on fresh objects after shifting all counters must keep its "
-        "signature.",
+        "integral type, subdomain id, metadata value incl. single array entries and last digits, mesh of a field or "
+        "integral, two coefficients merged into one -- fields are instances of ufl's classes or of user subclasses --, "
+        "derivative multi-index / function space of an ExternalOperator factor): signatures must differ for "
+        "every provably different pair; the same recipe rebuilt on fresh objects after shifting all counters, and the "
+        "variant built from the objects of the original form, must keep their signatures.",
         "Integrand edits count only when the interpreter finds different values with the k-th terminals of both forms identified.",
         "4/C11",
     ),
@@ -327,12 +333,13 @@ CHECKS.update({
 CHECKS.update({
     "C15": (
         "generated forms with mixed subdomain ids and distinct-but-similar metadata; oracle = dict model (mesh, type, subdomain, metadata class) -> sum of integrands, evaluated by the interpreter, vs the grouped form",
-        "Hypothesis-generated forms of 1-8 integrals (everywhere / int / tuple ids, dx and ds, one or two meshes, metadata "
+        "Hypothesis-generated forms of 1-8 integrals (everywhere / int / tuple ids, dx and ds, one or two meshes, 0-2 unapplied "
+        "shape derivatives per integral, metadata "
         "pools with equal, different and nearly equal values incl. long numpy arrays, repeated integrands) through "
         "group_form_integrals (both append options) and build_integral_data: per (mesh, type, subdomain, metadata class) the "
         "grouped integrands must sum to the applicable original integrands; output metadata must equal a source's metadata; "
         "ids in output tuples must be unique; integral data must list each grouped integral exactly once under its key.",
-        "Metadata classes by exact comparison; coordinate derivatives not generated.",
+        "Metadata classes by exact comparison; stacks of unapplied coordinate derivatives are compared as multisets.",
         "4/C15",
     ),
 })
@@ -357,8 +364,10 @@ CHECKS.update({
         "ZeroBaseForm, weighted sums (operators and explicit FormSum, nested, repeated, cancelling), Action with data "
         "coefficients on either side, Adjoint and the action()/adjoint() functions: the tensor obtained by walking the "
         "object UFL returns must equal the tensor of the composition, arguments() must report the map's slots in order "
-        "with numbers 0..n-1, and coefficients() must contain every coefficient the tensor depends on.",
-        "Real data; three spaces of dimension 2, 3, 2; derivatives of base forms are not generated.",
+        "with numbers 0..n-1, and coefficients() must contain every coefficient the tensor depends on; in a third of the "
+        "cases expand_derivatives(derivative(composition, w[, dw])) must denote the exact derivative of the tensor "
+        "(a polynomial in the differentiation variable, recovered from 7 samples).",
+        "Real data; three spaces of dimension 2, 3, 2; compositions whose derivative ufl does not support (it raises) are counted.",
         "4/C28",
     ),
 })
